@@ -204,6 +204,9 @@ def OPS(E):
         'ha_sign': (with_async('hasign', 'ksi+tcp://b.example:1'), async_sign),
         'blocksign': (with_net, one('blocksign 0 5 1 1 7', ('rc', 'nsig'))),
         'blocksign_plain': (with_net, one('blocksign 0 9 0 0 8', ('rc', 'nsig'))),
+        # the signer is used on after a failing call: the leaf is given up (or the call repeated); every leaf that was accepted must still get a verifying signature
+        'blocksign_continue': (with_net, one('blocksign 0 6 1 1 9 cont=1', ('rc', 'nsig', 'badsig', 'failed_calls', 'handle_on_error', 'completed'))),
+        'blocksign_continue_plain': (with_net, one('blocksign 0 7 0 0 5 cont=1', ('rc', 'nsig', 'badsig', 'failed_calls', 'handle_on_error', 'completed'))),
     }
     return ops
 
@@ -279,6 +282,15 @@ def worker(job, r):
                 r.observe(('crash', name, tag))
                 run.new_session()
                 continue
+            if name.startswith('blocksign_continue') and res and isinstance(res[0], tuple):
+                _, brc, nsig, badsig, nfail, hoe, completed = res[0]
+                nleaves = int(ref[0][2])
+                if badsig is not None:
+                    r.viol('objects-unusable-after-failure:%s:signature-does-not-verify' % name, 'allocation %s of %d failed; the signer was used on and the signature of leaf %s does not verify' % (tag, N, badsig), 'op=%s failat=%s' % (name, tag))
+                elif hoe is not None:
+                    r.viol('objects-unusable-after-failure:%s:handle-returned-with-error' % name, 'allocation %s of %d failed; KSI_BlockSigner_addLeaf reported an error but handed out a handle (leaf %s)' % (tag, N, hoe), 'op=%s failat=%s' % (name, tag))
+                elif completed == '1' and nfail is not None and nsig is not None and int(nsig) < nleaves - int(nfail):
+                    r.viol('objects-unusable-after-failure:%s:signatures-missing' % name, 'allocation %s of %d failed in %s call(s); only %s of %d leaves got a signature although the signer was used on (rc=%s)' % (tag, N, nfail, nsig, nleaves, brc), 'op=%s failat=%s' % (name, tag))
             r.observe((name, tag, is_error(res), failed))
             r.count('faults_injected' if failed else 'fault_not_reached')
             if failed and is_error(res):
@@ -309,7 +321,7 @@ def run(ctx):
     stride = 5 if quick else 1
     multi = 3 if quick else 60
     ctx.rule = ('for each of %d catalogue operations (context, parse, verify under several policies, serialize, clone, sign over simulated HTTP/TCP, extend, config, publications file parse/verify/lookup, '
-                'async TCP signing + config, HA signing, block signing with masking and metadata) a counting run measures the N allocations the SDK makes; then the n-th allocation is made to fail for '
+                'async TCP signing + config, HA signing, block signing with masking and metadata, block signing continued after a failing call) a counting run measures the N allocations the SDK makes; then the n-th allocation is made to fail for '
                 '%s n plus random 2-3 fault sets; oracle: no sanitizer report, error or fault-free result, all SDK blocks released after freeing objects and context, repeated operation gives the fault-free result. '
                 'distinct = (operation, failing index set, outcome)' % (len(names), 'every 5th (and the first 40)' if quick else 'every'))
     ctx.assumptions = ['only allocations made through KSI_malloc/KSI_calloc (base.o, the single allocation funnel) are failed; OpenSSL and the harness keep their allocator', 'simulated transports with an honest deterministic reference server']
